@@ -17,6 +17,7 @@ EXPLANATION_ADDED2 = ' (R8) the whole C03 rule set as a precondition of loss-fre
 EXPLANATION = EXPLANATION + " Added while testing against seeded changes: " + EXPLANATION_ADDED + EXPLANATION_ADDED2
 EXPLANATION = EXPLANATION + ' Rounds 12-13: (R11) at teardown the source is dispatched before the flow table is drained and one undispatchable message does not end that loop (= C05.R5).'
 EXPLANATION = EXPLANATION + " Rounds 14-15: (R12) only the stream handle's Drop reports its id on the dropped-flows queue, conditionally or not (= C06.R7); R4 also pairs, path-wise, every slice counted by a vectored write with a slice put into the frame; (S8) the WebSocket adapters hand over every message; (S9) the Push constructors are exact."
+EXPLANATION = EXPLANATION + " Rounds 16-17: S8 also covers the outgoing half of the adapters (start_send / poll_ready / poll_flush / poll_close hand on the result of the underlying call; no branch on the library's error kinds)."
 ASSUMPTIONS = ["tokio channels are FIFO; the WebSocket sink preserves message order"]
 NOT_DECIDED = "that no interleaving corrupts or duplicates bytes (follows from R1-R4 + FIFO, not re-proved)"
 THOROUGH_CONFIGS = ["mux-nodefault", "mux-std-only", "mux-yawc"]
